@@ -696,7 +696,89 @@ def check_c15(pid, tier, replay=None):
                       "digests/totals compared with the Lean model and the final digest with OpenSSL")
 
 
-CHECKS = {"C01": check_hash, "C06": check_hash, "C11": check_hash, "C15": check_c15, "C12": check_c12, "C09": check_c09, "C20": check_c20, "C08": check_c08, "C14": check_c14, "C05": check_mh, "C10": check_mh,
+C17_WRAPS = ("-Wl,--wrap=_aes_self_tests", "-Wl,--wrap=_sha_self_tests", "-Wl,--wrap=_aes_cbc_enc_128",
+             "-Wl,--wrap=_sha256_ctx_mgr_submit", "-Wl,--wrap=_sha256_ctx_mgr_flush")
+C17_THMS = ["IsalVerif.SelfTest.C17_once", "IsalVerif.SelfTest.C17_no_early_return",
+            "IsalVerif.SelfTest.C17_success_means_passed", "IsalVerif.SelfTest.C17_agree",
+            "IsalVerif.SelfTest.C17_verdict_stable", "IsalVerif.SelfTest.C17_live", "IsalVerif.SelfTest.C17_live_strong",
+            "IsalVerif.SelfTest.C17_final", "IsalVerif.SelfTest.C17_machine", "IsalVerif.SelfTest.C17_machine_live",
+            "IsalVerif.SelfTest.C17_D2_hypothesis_necessary"]
+C17_GEN = ["sim_ok", "closed_world_ok", "C17_generated_if", "C17_generated_live", "return_table_consistent",
+           "return_values_ok", "C17_generated"]
+
+
+def check_c17(pid, tier, replay=None):
+    """FIPS self-test protocol: abstract protocol theorems + instruction-level simulation check of the
+    generated programs (T-route: regenerated from the disassembly of the FIPS build on every run) +
+    return-value obligation from the C sources + pthread stress correspondence (drv_fips)."""
+    import subprocess, gen_selftest
+    from concurrent.futures import ThreadPoolExecutor
+    chk = vlib.Check(pid, tier)
+    gen_selftest.main(["--quiet"])
+    ns = open(os.path.join(vlib.LEAN, "IsalVerif", "GenProps", "SelfTest.lean")).read()
+    m = re.search(r"^namespace (\S+)", ns, re.M)
+    gns = m.group(1) if m else "IsalVerif.GenProps.SelfTest"
+    thms = C17_THMS + [gns + "." + t for t in C17_GEN]
+    lean_failed = vlib.lean_obligations(chk, "IsalVerif.GenProps.SelfTestRet", thms, extra_targets=["IsalVerif.Props.C17"])
+    drv = vlib.harness_bin("drv_fips", "fips", libs=(), cflags=C17_WRAPS)
+    rounds = 12 if tier == "quick" else 150
+    jobs = [(n, mode, rounds, chk.seed) for n in (1, 2, 8, 64) for mode in ("pass", "aesfail", "shafail")]
+    if replay:
+        rp = json.load(open(replay))
+        a = rp["args"]
+        jobs = [(int(a[0]), a[1], int(a[2]), int(a[3]))]
+
+    def run(job):
+        n, mode, rnds, sd = job
+        r = subprocess.run([drv, str(n), mode, str(rnds), str(sd)], capture_output=True, text=True, timeout=3600)
+        lines = [l for l in r.stdout.split("\n") if l]
+        return job, r.returncode, [l for l in lines if l.startswith("MONITOR")], [l for l in lines if l.startswith("round=")]
+
+    with ThreadPoolExecutor(max_workers=3) as ex:
+        res = list(ex.map(run, jobs))
+    found = False
+    nround = 0
+    hist = {}
+    for (n, mode, rnds, sd), rc, mons, rlines in res:
+        nround += len(rlines)
+        hist["%s/n=%d" % (mode, n)] = len(rlines)
+        ok = rc == 0 and not mons and len(rlines) == rnds
+        chk.oblige("stress correspondence drv_fips n=%d mode=%s rounds=%d" % (n, mode, rnds), ok, "exit=%d monitors=%d" % (rc, len(mons)))
+        if not ok:
+            found = True
+            kind = mons[0].split()[1] if mons else "harness-exit-%d" % rc
+            # shrink the number of rounds (rounds are independent processes, seed-deterministic delays)
+            chk.violation("%s with %d threads, mode %s" % (kind, n, mode),
+                          {"kind": "history", "args": [str(n), mode, str(rnds), str(sd)], "monitor": mons[:4],
+                           "rounds": rlines[:3], "broken_obligations": [f[0] for f in lean_failed],
+                           "note": "drv_fips <threads> <mode> <rounds> <seed>: concurrent first calls into the FIPS build; "
+                                   "mode shafail makes the real SHA self test fail with its own failure value"},
+                          match={"monitor": kind, "mode": mode})
+        if rlines and len(chk.samples) < 6:
+            chk.samples.append({"threads": n, "mode": mode, "round": rlines[0][:160]})
+    if replay:
+        print("replay: %s" % [(r[1], r[2][:2]) for r in res])
+        return 1 if found else 0
+    for name, detail in lean_failed:
+        if found:
+            continue       # the concrete failing history above is the replay for the broken obligation
+        chk.violation("Lean obligation no longer checks: %s" % name,
+                      {"kind": "obligation", "obligation": name, "detail": detail}, no_input=True)
+    chk.cov["evaluations"] = nround
+    chk.cov["distinct_nontrivial"] = len(hist)
+    chk.cov["stress_rounds"] = hist
+    chk.trusted = ["Lean 4.33.0 kernel; axioms allowed: propext, Classical.choice, Quot.sound",
+                   "translator tools/gen_selftest.py: objdump decoding + relocation arithmetic of asm_self_tests.o / self_tests.o (FIPS build); "
+                   "return-value extraction from fips/{aes,sha}_self_tests.c (anything it cannot evaluate becomes 999 and fails the obligation)",
+                   "memory model: sequential consistency for the single status word (x86-TSO is coherent per location; lock cmpxchg is a full barrier)",
+                   "the self-test functions are opaque (enter/return with a value from the extracted set); rbx preserved across them (C19)"]
+    chk.assumptions = ["fair scheduler (every unfinished thread is eventually scheduled) for the liveness clauses",
+                       "self_tests_generic.c (non-x86) is not covered"]
+    return chk.finish(level="proof", rule="N in {1,2,8,64} threads x {tests pass, AES self test fails, SHA self test fails} x rounds; "
+                      "every round a fresh process: barrier-released first calls into random approved entry points, then later calls with and without the fault")
+
+
+CHECKS = {"C17": check_c17, "C01": check_hash, "C06": check_hash, "C11": check_hash, "C15": check_c15, "C12": check_c12, "C09": check_c09, "C20": check_c20, "C08": check_c08, "C14": check_c14, "C05": check_mh, "C10": check_mh,
           "C02": check_aes, "C03": check_aes, "C04": check_aes, "C07": check_aes}
 
 
